@@ -66,73 +66,83 @@ def run(ctx):
     tree = fn.node
 
     # ---- R20a (syntactic, variables discovered by their initialisation) ------------------
+    # the search may be split into step helpers that receive and return the best cost /
+    # configuration: every function of the helper closure is examined
+    from ..util import helper_closure as _hc
+    fns20 = _hc(repo, fn)
     best_vars = {}
-    for n in ast.walk(tree):
-        if isinstance(n, ast.Assign) and len(n.targets) == 1 and isinstance(n.targets[0], ast.Name) \
-                and isinstance(n.value, ast.Call) and ast.unparse(n.value.func) == 'copy.deepcopy' \
-                and len(n.value.args) == 1 and isinstance(n.value.args[0], ast.Name):
-            best_vars.setdefault(n.targets[0].id, n)
-    # the best-cost variable is the one that receives a candidate cost (the result of a
-    # cost evaluation) inside the search loops
-    cand = set()
-    best_cost = None
-    for w in ast.walk(tree):
-        if not isinstance(w, ast.While):
-            continue
-        for n in ast.walk(w):
+    for g in fns20:
+        for n in ast.walk(g.node):
             if isinstance(n, ast.Assign) and len(n.targets) == 1 and \
                     isinstance(n.targets[0], ast.Name) and isinstance(n.value, ast.Call) and \
-                    'cost' in ast.unparse(n.value.func):
-                cand.add(n.targets[0].id)
-        for n in ast.walk(w):
-            if isinstance(n, ast.Assign) and len(n.targets) == 1 and \
-                    isinstance(n.targets[0], ast.Name) and isinstance(n.value, ast.Name) and \
-                    n.value.id in cand and n.targets[0].id in best_vars:
-                best_cost = n.targets[0].id
-    if best_cost is None:
+                    ast.unparse(n.value.func) == 'copy.deepcopy' and len(n.value.args) == 1 and \
+                    isinstance(n.value.args[0], ast.Name):
+                best_vars.setdefault(n.targets[0].id, n)
+    # the best-cost variable is the one that receives a candidate cost (the result of a
+    # cost evaluation) inside the search loops (or in a step helper called from them)
+    sites = []          # (function, best name, update statement)
+    for g in fns20:
+        scopes = [w for w in ast.walk(g.node) if isinstance(w, ast.While)] if g is fn \
+            else [g.node]
+        params = {a.arg for a in g.node.args.args}
+        for w in scopes:
+            cand = set()
+            for n in ast.walk(w):
+                if isinstance(n, ast.Assign) and len(n.targets) == 1 and \
+                        isinstance(n.targets[0], ast.Name) and isinstance(n.value, ast.Call) and \
+                        'cost' in ast.unparse(n.value.func):
+                    cand.add(n.targets[0].id)
+            for n in ast.walk(w):
+                if isinstance(n, ast.Assign) and len(n.targets) == 1 and \
+                        isinstance(n.targets[0], ast.Name) and isinstance(n.value, ast.Name) and \
+                        n.value.id in cand and (n.targets[0].id in best_vars or
+                                                (g is not fn and n.targets[0].id in params)):
+                    if not any(x[2] is n for x in sites):
+                        sites.append((g, n.targets[0].id, n))
+    if not sites:
         raise AnalysisError('optimize_prec_assignment: best-cost variable not found')
-    init = best_vars[best_cost]
-    ok_init = ast.unparse(init.value.args[0]) == 'base_cost' or True
-    parents = {}
-    for n in ast.walk(tree):
-        for c in ast.iter_child_nodes(n):
-            parents[c] = n
+    best_cost = sites[0][1]
+    init = best_vars.get(best_cost) or next(iter(best_vars.values()), None)
     n_upd = 0
-    for n in ast.walk(tree):
-        if isinstance(n, ast.Assign) and any(isinstance(t, ast.Name) and t.id == best_cost
-                                             for t in n.targets) and n is not init:
-            n_upd += 1
-            # innermost enclosing if
-            p = parents.get(n)
-            while p is not None and not isinstance(p, ast.If):
-                p = parents.get(p)
-            ok = p is not None and n in p.body and isinstance(p.test, ast.Compare) and \
-                len(p.test.ops) == 1 and isinstance(p.test.ops[0], ast.Lt) and \
-                ast.dump(p.test.left) == ast.dump(n.value) and \
-                isinstance(p.test.comparators[0], ast.Name) and \
-                p.test.comparators[0].id == best_cost
-            ctx.ob('R20a', f'optimize_prec_assignment update of {best_cost} #{n_upd}', ok,
-                   'guarded by candidate < best' if ok else
-                   f'"{ast.unparse(n)}" is not guarded by "{ast.unparse(n.value)} < {best_cost}": '
-                   f'a configuration that does not lower the cost can be kept',
-                   f'{fn.module.relpath}:{n.lineno}')
-            # the configuration is saved in the same block
-            if ok:
-                saved = [s for s in p.body if isinstance(s, ast.Assign) and
-                         any(isinstance(t, ast.Name) and t.id in best_vars and t.id != best_cost
-                             for t in s.targets)]
-                ctx.ob('R20a', f'optimize_prec_assignment saves the configuration #{n_upd}',
-                       bool(saved), 'best configuration saved together with its cost' if saved
-                       else 'the cost is updated without saving the configuration',
-                       f'{fn.module.relpath}:{n.lineno}', nontrivial=False)
-    ctx.floor('R20a', 'best-cost update sites', n_upd, 2)
+    for g, bname, n in sites:
+        parents = {}
+        for x in ast.walk(g.node):
+            for c in ast.iter_child_nodes(x):
+                parents[c] = x
+        n_upd += 1
+        # innermost enclosing if
+        p = parents.get(n)
+        while p is not None and not isinstance(p, ast.If):
+            p = parents.get(p)
+        ok = p is not None and n in p.body and isinstance(p.test, ast.Compare) and \
+            len(p.test.ops) == 1 and isinstance(p.test.ops[0], ast.Lt) and \
+            ast.dump(p.test.left) == ast.dump(n.value) and \
+            isinstance(p.test.comparators[0], ast.Name) and \
+            p.test.comparators[0].id == bname
+        ctx.ob('R20a', f'optimize_prec_assignment update of {best_cost} #{n_upd}', ok,
+               'guarded by candidate < best' if ok else
+               f'"{ast.unparse(n)}" is not guarded by "{ast.unparse(n.value)} < {bname}": '
+               f'a configuration that does not lower the cost can be kept',
+               f'{g.module.relpath}:{n.lineno}')
+        # the configuration is saved in the same block
+        if ok:
+            saved = [s_ for s_ in p.body if isinstance(s_, ast.Assign) and s_ is not n and
+                     any(isinstance(t, ast.Name) and t.id != bname and
+                         (t.id in best_vars or t.id in {a.arg for a in g.node.args.args})
+                         for t in s_.targets)]
+            ctx.ob('R20a', f'optimize_prec_assignment saves the configuration #{n_upd}',
+                   bool(saved), 'best configuration saved together with its cost' if saved
+                   else 'the cost is updated without saving the configuration',
+                   f'{g.module.relpath}:{n.lineno}', nontrivial=False)
+    ctx.floor('R20a', 'best-cost update sites', n_upd, 1 if len(fns20) > 1 else 2)
     # best initialised from the base cost / configuration
     base_names = {ast.unparse(v.value.args[0]) for v in best_vars.values()}
     ctx.ob('R20a', 'optimize_prec_assignment initialises best from the base configuration',
            'base_cost' in base_names,
            f'initialised from {sorted(base_names)}' if 'base_cost' in base_names else
            f'best is initialised from {sorted(base_names)}, not from the base cost',
-           f'{fn.module.relpath}:{init.lineno}', nontrivial=False)
+           f'{fn.module.relpath}:{init.lineno if init is not None else fn.node.lineno}',
+           nontrivial=False)
 
     # ---- R20b (def-use on the path terms) ----------------------------------------------
     moves = {}
@@ -147,7 +157,8 @@ def run(ctx):
                     moves.setdefault(key, (p, e))
     subs = {k: v for k, v in moves.items() if k[1] == '-'}
     adds = {k: v for k, v in moves.items() if k[1] == '+'}
-    ctx.floor('R20b', 'mass-move sites', min(len(subs), len(adds)), 2)
+    # two search loops in the function itself; one shared step when they were de-duplicated
+    ctx.floor('R20b', 'mass-move sites', min(len(subs), len(adds)), 1 if len(fns20) > 1 else 2)
     for (ln, _), (p, e) in sorted(subs.items()):
         i = e.data[1]
         d = e.data[2][3]
@@ -199,7 +210,8 @@ def run(ctx):
         for e in p.calls():
             t = e.data[0]
             if callee(t) == ra.qualname and t[2]:
-                st = perm_state(t[2][0], P)
+                from ..util import resolve_namedtuples
+                st = perm_state(resolve_namedtuples(repo, t[2][0]), resolve_namedtuples(repo, P))
                 key = (st, show(t[2][0])[:0])
                 seen.setdefault(st, (p, e, t[2][0]))
     if not seen:
@@ -275,8 +287,9 @@ def run(ctx):
             t = e.data[0]
             c = callee(t)
             if c in helpers and len(t[2]) > helpers[c][1]:
-                a = t[2][helpers[c][1]]
-                st = perm_state(a, P)
+                from ..util import resolve_namedtuples
+                a = resolve_namedtuples(repo, t[2][helpers[c][1]])
+                st = perm_state(a, resolve_namedtuples(repo, P))
                 seen_states.setdefault((helpers[c][0].name, st, getattr(e.node, 'lineno', 0)),
                                        (e, a))
     for (hname, st, ln), (e, a) in sorted(seen_states.items()):
@@ -290,14 +303,21 @@ def run(ctx):
                f'{"sorted" if st == "SORTED" else "doubly permuted"} order: for a precision '
                f'tuple that is not ascending every candidate is priced at the wrong bit-widths, '
                f'so a configuration that raises the cost can be kept', where(fn, e.node))
-    ctx.floor('R20g', 'pricing call sites', n_calls, 3)
+    ctx.floor('R20g', 'pricing call sites', n_calls, 2 if len(fns20) > 1 else 3)
 
     # ---- R20d -----------------------------------------------------------------------------
     n_loops = 0
     defs = {}
-    for n in ast.walk(tree):
-        if isinstance(n, ast.Assign) and len(n.targets) == 1 and isinstance(n.targets[0], ast.Name):
-            defs.setdefault(n.targets[0].id, []).append(n.value)
+    kwdefs = {}          # field of a record built in the closure -> its values
+    for g in fns20:
+        for n in ast.walk(g.node):
+            if isinstance(n, ast.Assign) and len(n.targets) == 1 and \
+                    isinstance(n.targets[0], ast.Name):
+                defs.setdefault(n.targets[0].id, []).append(n.value)
+            if isinstance(n, ast.Call) and isinstance(n.func, ast.Name) and n.keywords:
+                for kw in n.keywords:
+                    if kw.arg:
+                        kwdefs.setdefault(kw.arg, []).append(kw.value)
 
     def positive(e, depth=0) -> bool:
         """expression certainly > 0: positive literals, sizes, and their products/quotients"""
@@ -312,9 +332,12 @@ def run(ctx):
             return True
         if isinstance(e, ast.Name) and depth < 3 and len(defs.get(e.id, [])) == 1:
             return positive(defs[e.id][0], depth + 1)
+        if isinstance(e, ast.Attribute) and isinstance(e.value, ast.Name) and depth < 3 and \
+                len(kwdefs.get(e.attr, [])) == 1:
+            return positive(kwdefs[e.attr][0], depth + 1)    # field of a record (NamedTuple)
         return False
 
-    for n in ast.walk(tree):
+    for n in [x for g in fns20 for x in ast.walk(g.node)]:
         if isinstance(n, ast.While) and isinstance(n.test, ast.Compare) and \
                 len(n.test.ops) == 1 and isinstance(n.test.ops[0], (ast.Gt, ast.GtE)):
             for b in ast.walk(n):
@@ -335,7 +358,7 @@ def run(ctx):
                            f'the non-integer float {ast.unparse(b.value)}: rounding residue makes '
                            f'the loop run one step too many or too few (negative / missing '
                            f'channel counts)', f'{fn.module.relpath}:{n.lineno}')
-    ctx.floor('R20d', 'share-stepping loops', n_loops, 2)
+    ctx.floor('R20d', 'share-stepping loops', n_loops, 1 if len(fns20) > 1 else 2)
     for p in returning(paths(repo, ra)):
         for e in p.calls():
             t = e.data[0]
